@@ -7,6 +7,7 @@ import (
 	"fmt"
 	"go/token"
 	"go/types"
+	"strconv"
 	"strings"
 
 	"golang.org/x/tools/go/ssa"
@@ -644,6 +645,11 @@ func (f *Frame) execSelect(in *ssa.Select, st *State) {
 			}
 		}
 	}
+	// "$sel": the case chosen by the most recent select of the function (-1 = default), readable in site assertions
+	if e.mode != "bv" {
+		e.ghostDecl["$sel"] = "Int"
+		st.ghost["$sel"] = e.define("gh.sel", "Int", idx.S)
+	}
 	f.set(in, Val{T: in.Type(), Tuple: vals})
 }
 
@@ -699,6 +705,13 @@ func (e *Engine) siteMatch(site string, kind, name string, ord int) bool {
 		return nk == name || nk == stripTypeArgs(name)
 	}
 	if nk[:i] != name && nk[:i] != stripTypeArgs(name) {
+		return false
+	}
+	if o := nk[i+1:]; strings.HasSuffix(o, "+") {
+		// "#k+": the k-th site and every later one
+		if k, err := strconv.Atoi(strings.TrimSuffix(o, "+")); err == nil {
+			return ord >= k
+		}
 		return false
 	}
 	return nk[i+1:] == "*" || nk[i+1:] == fmt.Sprint(ord)
